@@ -62,6 +62,31 @@ def generate(rng, tier, cls):
             faults.append({'kind': 'skew', 'file': 'f1', 'section': i,
                            'key': key, 'value': v, 'pos': rng.below(6)})
 
+    if rng.chance(0.15) and recs[0] is not None:
+        # options the specification defines for *another* kind of section
+        # (with a value that is valid there): unknown where they stand, so
+        # carried through like any other and without effect on the content
+        elsewhere = {
+            'diff': [('indent', '1'), ('indent', '3'), ('format', 'json'),
+                     ('mimetype', 'text/plain'), ('version', '1.0')],
+            'meta': [('indent', '2'), ('type', 'text'),
+                     ('mimetype', 'text/markdown'), ('version', '1.0')],
+            'preamble': [('format', 'json'), ('type', 'binary'),
+                         ('version', '1.0')],
+            'change': [('indent', '4'), ('type', 'text'), ('format', 'json'),
+                       ('mimetype', 'text/plain'), ('version', '1.0')],
+            'file': [('indent', '0'), ('type', 'binary'), ('format', 'json'),
+                     ('mimetype', 'text/plain'), ('version', '1.0')],
+        }
+        i = rng.below(n)
+        cands = elsewhere.get(recs[i]['type'], [])
+        have = recs[i]['options']
+
+        for key, v in rng.sample(cands, min(len(cands), rng.randint(1, 2))):
+            if key not in have:
+                faults.append({'kind': 'skew', 'file': 'f1', 'section': i,
+                               'key': key, 'value': v, 'pos': rng.below(6)})
+
     if rng.chance(0.02):
         # hundreds of (short) unknown options on one header
         i = rng.below(n)
